@@ -234,6 +234,64 @@ def _nonzero_subject(n, pol):
     return None
 
 
+def check_writer_sequencing(ctx, u):
+    """a sequential (non-positional) BufferWriter writer either delegates to another sequential writer or
+    stores at the cursor and then advances the cursor by the number of bytes stored"""
+    R = 'C01-R8'
+    seen = set()
+    for f in u.functions:
+        q = strip_targs(u.qualname(f))
+        if not q.startswith('phosg::BufferWriter::') or body_of(f) is None or is_dependent_pattern(f, u):
+            continue
+        nm = f.get('name') or ''
+        if nm not in ('write', 'put'):
+            continue
+        key = '%s(%s)' % (nm, ','.join(strip_targs(qtype(p) or '') for p in params_of(f)))
+        if key in seen:
+            continue
+        seen.add(key)
+        ctx.fn(q)
+        body = body_of(f)
+        calls = [c for c in walk(body) if c.get('kind') in ('CXXMemberCallExpr', 'CallExpr', 'CXXDependentScopeMemberExpr') and (call_name(c) or '') in ('write', 'put', 'pwrite', 'pput')]
+        # in a dependent pattern the callee is unresolved: read the member name off the callee expression
+        if not calls:
+            calls = [c for c in walk(body) if c.get('kind') == 'CallExpr' and any(m.get('kind') in ('CXXDependentScopeMemberExpr', 'UnresolvedMemberExpr', 'MemberExpr') and (m.get('member') or m.get('name') or '') in ('write', 'put', 'pwrite', 'pput') for m in walk(kids(c)[0]))]
+        def cname(c):
+            n_ = call_name(c)
+            if n_:
+                return n_
+            for m in walk(kids(c)[0]):
+                if m.get('kind') in ('CXXDependentScopeMemberExpr', 'UnresolvedMemberExpr', 'MemberExpr'):
+                    return m.get('member') or m.get('name')
+            return None
+        seq = [c for c in calls if cname(c) in ('write', 'put')]
+        pos = [c for c in calls if cname(c) in ('pwrite', 'pput')]
+        adv = [x for x in walk(body) if x.get('kind') == 'CompoundAssignOperator' and x.get('opcode') == '+=' and canon(x['inner'][0]) == 'this.offset']
+        if seq and not pos and not adv:
+            ctx.ok(R, key, f, 'delegates to the sequential %s' % cname(seq[0]))
+        elif len(pos) == 1 and not seq:
+            a = call_args(pos[0])
+            at_cursor = bool(a) and canon(a[0]) == 'this.offset'
+            if not at_cursor:
+                ctx.undecided(R, key, f, 'the store is not at this->offset')
+            elif not adv:
+                ctx.bad(R, key, f, '%s stores at the cursor through %s but never advances the cursor: the next sequential write overwrites these bytes' % (key, cname(pos[0])))
+            else:
+                # amount: the size argument of the store, or the size of the string / object stored
+                amt = nf(adv[0]['inner'][1])
+                sizes = {nf(x) for x in a[1:]} | {'%s.size()' % nf(x) for x in a[1:]} | {'sizeof(%s)' % nf(x) for x in a[1:]}
+                later = all(x.get('_off', 0) > pos[0].get('_off', 0) for x in adv)
+                uncond = all(enclosing(x, ('IfStmt',) + LOOPS) is None for x in adv)
+                if len(adv) == 1 and later and uncond and amt in sizes:
+                    ctx.ok(R, key, f, 'stores at the cursor, then advances it by %s' % amt)
+                elif len(adv) == 1 and later and uncond:
+                    ctx.bad(R, key, f, '%s stores %s at the cursor but advances it by %s' % (key, sorted(nf(x) for x in a[1:]), amt))
+                else:
+                    ctx.undecided(R, key, f, 'cursor update is conditional or precedes the store')
+        else:
+            ctx.undecided(R, key, f, 'neither a delegation to a sequential writer nor store-then-advance')
+
+
 def check_advance_discipline(ctx, u):
     """every sequential accessor with an `advance` flag moves the cursor by the encoded width on
     every path where the flag is set - no other condition decides whether the cursor moves."""
@@ -496,11 +554,59 @@ def check_bits(ctx, u):
     t = u.func('phosg::BitWriter::truncate')[0]
     ctx.fn('BitWriter::truncate')
     tb = body_of(t)
+    # by evaluation (E-TABLE): truncate(n) folded from every state of up to 3 bytes x 0..7 unset bits, n = 0..size+1
+    from peval import PEval, Str, Thrown, Undecided, Fault
+    PE = PEval([u])
+    ev_bad, ev_und, ev_n = None, None, 0
+    for nbytes_ in range(0, 4):
+        for un_ in (range(0, 8) if nbytes_ else (0,)):
+            bits_ = nbytes_ * 8 - un_
+            raw = bytearray([0xFF] * nbytes_)
+            if nbytes_:
+                raw[-1] = (0xFF << un_) & 0xFF
+            for n_ in range(0, bits_ + 2):
+                if ev_und:
+                    break
+                bw = PE.new_object('phosg::BitWriter')
+                if bw is None:
+                    ev_und = 'BitWriter object model'
+                    break
+                bw.f.update({'data': Str(bytes(raw)), 'last_byte_unset_bits': un_})
+                try:
+                    PE.call_with(t, [n_], this=bw)
+                    out = (bytes(bw.f['data'].b), bw.f['last_byte_unset_bits'])
+                except Thrown as e_:
+                    out = 'throws'
+                except Fault as e_:
+                    out = 'faults: %s' % e_
+                except Undecided as e_:
+                    ev_und = str(e_)
+                    break
+                if n_ > bits_:
+                    want = 'throws'
+                else:
+                    wb = bytearray([0xFF] * ((n_ + 7) // 8))
+                    wu = (8 - (n_ & 7)) & 7
+                    if wb:
+                        wb[-1] = (0xFF << wu) & 0xFF
+                    want = (bytes(wb), wu)
+                ev_n += 1
+                if out != want and not ev_bad:
+                    ev_bad = 'truncate(%d) on %d bit(s) (%s, %d unset) gives %s; expected %s' % (n_, bits_, bytes(raw).hex() or 'empty', un_, out if isinstance(out, str) else (out[0].hex(), out[1]), want if isinstance(want, str) else (want[0].hex(), want[1]))
+    if ev_bad:
+        ctx.bad(R, 'BitWriter::truncate|mask', t, 'truncate does not keep exactly the first n bits: ' + ev_bad)
+        return
+    if not ev_und:
+        ctx.ok(R, 'BitWriter::truncate|mask', t, 'truncate(n) keeps exactly the first n bits (ceil(n/8) bytes, (8-n%%8)%%8 unset bits, unset bits cleared) and refuses to extend: folded on %d (state, n) pairs' % ev_n)
+        return
+    ctx.note('BitWriter::truncate could not be folded (%s): structural rule used' % ev_und)
     szp = params_of(t)[0]
     sets = [x for x in walk(tb) if x.get('kind') == 'BinaryOperator' and x.get('opcode') == '=' and canon(x['inner'][0]) == 'this.last_byte_unset_bits']
     ands = [x for x in walk(tb) if x.get('kind') == 'CompoundAssignOperator' and x.get('opcode') == '&=']
     resizes = [c for c in walk(tb) if c.get('kind') == 'CXXMemberCallExpr' and call_name(c) == 'resize']
-    ctx.require(len(sets) == 1 and len(ands) == 1 and len(resizes) == 1, 'BitWriter::truncate: expected one unset-bits assignment, one &= and one resize')
+    if not (len(sets) == 1 and len(ands) == 1 and len(resizes) == 1):
+        ctx.undecided(R, 'BitWriter::truncate|mask', t, 'truncate could not be folded (%s) and is not one unset-bits assignment, one &= and one resize' % ev_und)
+        return
     bad_t = []
     locs = [x for x in walk(tb) if x.get('kind') == 'VarDecl' and kids(x)]
     for m in range(0, 17):
@@ -555,6 +661,7 @@ def run(ctx):
     ctx.rule('C01-R5', 'bit packers agree on MSB-first: reader selects bit 7-(n&7) of byte n>>3; writer sets bit u-1 with u unset bits, fresh byte 0x80/7; truncate keeps exactly n bits', 7)
     ctx.rule('C01-R6', 'positional writes (StringWriter::pput<T>) grow the string to cover the write, fill the gap with zero bytes, and copy sizeof(T) bytes at offset', 30)
     ctx.rule('C01-R7', 'every sequential accessor taking `advance` (get<T>, getv, get_u24/48, read, readx, get_line, get_cstr, BitReader::read) moves the cursor by the encoded width whenever the flag is set: the update is conditioned on the flag alone (a zero-amount skip is equivalent); the amount is the encoded width', 40)
+    ctx.rule('C01-R8', 'BufferWriter sequential writers (write, put<T>) delegate to another sequential writer or store at the cursor and then advance it, unconditionally, by the number of bytes stored', 3)
     u = ctx.unit(repo_unit('Strings.cc'))
     tables = check_accessor_table(ctx, u)
     check_symmetry(ctx, u, tables)
@@ -562,6 +669,8 @@ def run(ctx):
     check_2448(ctx, u)
     check_bits(ctx, u)
     check_advance_discipline(ctx, u)
+    with ctx.section('C01-R8', 'C01'):
+        check_writer_sequencing(ctx, u)
     from props.c02 import check_pput
     check_pput(ctx, u, 'C01-R6')
     ctx.note('Byte-order correctness of the wrappers themselves is C03; bounds are C02. Not decided here: equality of whole value sequences under arbitrary interleavings of appends and positional writes.')
